@@ -379,7 +379,7 @@ impl Check for C18 {
         run_states(&u, unit, ctx, Some((&env, &argv, case["help"].as_bool() == Some(true))));
     }
     fn rule(&self) -> String {
-        "definitions = every item kind (switch, flag, req_flag, count, argument required/optional/many/some/fallback/last; OsString, u32 and guarded u32) backed by {names + one variable, names + two variables, variable only}, alone and beside a neutral switch and an optional positional, plus pairs of env-backed items, plus the single items on levels with fallback_to_usage; configurations = every state {unset, empty, valid, invalid, non-UTF-8, number rejected by the guard of guarded items, value with a blank line} of every declared variable; inputs = every vector of the token tree; reference scanner with the extra rule 'no occurrence on the line -> one synthetic occurrence from the first set variable (flags: present iff set)'; plus: undeclared look-alike variables set/unset give identical outcomes, --help shows [env:NAME ...] state of declared variables only; state = (definition, environment, vector)".into()
+        "definitions = every item kind (switch, flag, req_flag, count, argument required/optional/many/some/fallback/last; OsString, u32 and guarded u32) backed by {names + one variable, names + two variables, variable only}, alone and beside a neutral switch and an optional positional, plus pairs of env-backed items, plus the single items on levels with fallback_to_usage; configurations = every state {unset, empty, valid, invalid, non-UTF-8, number rejected by the guard of guarded items, value with a blank line} of every declared variable; inputs = every vector of the token tree; reference scanner with the extra rule 'no occurrence on the line -> one synthetic occurrence from the first set variable (flags: present iff set)'; plus: undeclared look-alike variables set/unset give identical outcomes, --help shows [env:NAME ...] state of declared variables only; state = (definition, environment, vector); plus an env-backed argument inside a repeated adjacent command: on every line of the regular form [-s] (job [--level N] [-s])* every occurrence without the argument takes the variable's value (unset / invalid: failure)".into()
     }
     fn bounds(&self, tier: Tier) -> Value {
         json!({"vector_length": tier.pick("4 (single item), 3 (with neighbours)", "5 / 4"), "variables": "1..2 declared, 7 states each, 4 undeclared look-alikes"})
